@@ -208,7 +208,7 @@ func (ic instrCompiler) ProcessEtcLookupInstr(l ir.EtcLookup) {
 // ProcessFillTableInstr compiles a FillTable instruction.
 func (ic instrCompiler) ProcessFillTableInstr(f ir.FillTable) {
 	if f.Idx < 0 || f.Idx >= 256 {
-		panic("Fill table index out of range")
+		panic(newPanic("too many items before a multiple value in a table constructor"))
 	}
 	ic.Emit(code.FillTable(ic.codeReg(f.Dst), ic.codeReg(f.Etc), f.Idx))
 }
